@@ -415,6 +415,51 @@ func rulesC03(c *Ctx) {
 		c.Pin("SSE 202 sites", m, 1)
 	})
 
+	c.Rule("R-C03-9", "the streamable client sends each message on the goroutine that wrote it and tells the writer when the server refused it: Write returns nil only after checkResponse accepted the POST, and no goroutine started by Write sends the message (a notification re-sent in the background arrives after the call that was written after it)", func() {
+		wr := c.Fn(pM, "streamableClientConn", "Write")
+		g := wr.Graph()
+		crv := g.callVertices(c.FnObj(pM, "streamableClientConn", "checkResponse"))
+		c.Need(len(crv) >= 1, "streamableClientConn.Write: call of checkResponse")
+		n := 0
+		for i, r := range wr.Returns() {
+			if len(r.Results) != 1 || !isNilIdent(r.Results[0]) {
+				continue
+			}
+			n++
+			ok := false
+			for _, v := range crv {
+				if g.Dominates(v, g.VertexOf(r)) {
+					ok = true
+				}
+			}
+			c.Check(ok, "Write:success-only-after-checkResponse#"+itoa(i), wr, r, "a nil return of Write lies behind checkResponse: a POST the server answered with an error status is reported to the writer, not swallowed or retried behind its back")
+		}
+		c.Pin("nil returns of the streamable client's Write", n, 1)
+		do := c.Std("net/http", "Client", "Do")
+		m := 0
+		for _, gs := range wr.goStmts() {
+			m++
+			lit := wr.LitArgOfGo(gs)
+			if lit == nil {
+				c.Ok("Write:goroutine-does-not-send#"+itoa(m), wr, gs, "a named method (response reader)")
+				continue
+			}
+			sends := len(lit.CallsIn(lit.Body, do, true)) > 0
+			for _, call := range lit.AllCalls(lit.Body, true) {
+				if id, isID := ast.Unparen(call.Fun).(*ast.Ident); isID {
+					if v, isV := lit.ObjOf(id).(*types.Var); isV && !v.IsField() {
+						if _, isSig := v.Type().Underlying().(*types.Signature); isSig && wr.Defines(wr.Body, v) {
+							sends = true // a closure of Write (the request sender) called from the goroutine
+						}
+					}
+				}
+			}
+			c.Check(!sends, "Write:goroutine-does-not-send#"+itoa(m), wr, gs, "no goroutine started by Write issues the message's HTTP request")
+		}
+		c.Pin("goroutines started by the streamable client's Write", m, 2)
+	})
+
+	c.Import("R-C03-10", "nothing is answered ahead of the queue: the preempter (which runs on the read goroutine, before the request is queued) never produces a result, it only observes cancellations", "C04", "R-C04-2", func(k string) bool { return strings.HasPrefix(k, "Preempt:return") })
 	c.Import("R-C03-8", "a resumed stream does not hand the client older messages after newer ones: on resume the stream's index is re-based to the position actually replayed (live ids continue from there)", "C08", "R-C08-2", func(k string) bool { return strings.HasPrefix(k, "lastIdx") || strings.HasPrefix(k, "acquireStream") })
 
 	c.Rule("R-C03-7", "the messages of one JSON-RPC batch reach the reader in wire order: decoded by appending in slice order, queued as the tail msgs[1:], consumed from the head, published to the session channel in slice order", func() {
